@@ -178,6 +178,19 @@ func checkCmd(argv []string) int {
 	if *tier == "thorough" {
 		timeout = 120
 	}
+	// obligations that are not claimed (not in the expected set) cannot change the verdict: in the quick tier they
+	// get a short timeout so that known-unproved clauses do not slow every run down
+	exp0 := &Expected{Obligations: map[string]string{}}
+	readJSON(filepath.Join(*verif, "expected", *prop+".json"), exp0)
+	if *tier == "quick" && !*update {
+		for _, fr := range frs {
+			for _, o := range fr.Obls {
+				if _, claimed := exp0.Obligations[o.Name]; !claimed {
+					o.ShortTimeout = 4
+				}
+			}
+		}
+	}
 	prelude := P.reg.Prelude()
 	SolveAll(func(*FuncResult) string { return prelude }, frs, func(o *Obligation) bool { return picked[o] }, timeout, runtime.NumCPU())
 	solveS := time.Since(t0).Seconds() - loadS - genS
